@@ -32,7 +32,7 @@ func utf8Layouts(maxChars int, maxBytes int) []string {
 
 func init() {
 	Register(&Check{
-		ID: "C14", Title: "the parser is total (conversion and diagnostic kernels)", PanicViolates: true,
+		ID: "C14", SelfTest: true, Title: "the parser is total (conversion and diagnostic kernels)", PanicViolates: true,
 		Files: parserFiles, LoadPkgs: []string{"internal/parser"}, InitPkgs: []string{"internal/parser"},
 		Cases: func(tier string) []Case {
 			var cases []Case
@@ -106,7 +106,7 @@ func init() {
 		Outside: []string{"the ANTLR lexer and parser, their error recovery and termination", "acceptance of every valid script / rejection of every invalid one", "texts longer than the bounds"},
 	})
 	Register(&Check{
-		ID: "C15", Title: "ranges delimit exactly the text (range arithmetic)", PanicViolates: true,
+		ID: "C15", SelfTest: true, Title: "ranges delimit exactly the text (range arithmetic)", PanicViolates: true,
 		Files: parserFiles, LoadPkgs: []string{"internal/parser"}, InitPkgs: []string{"internal/parser"},
 		Cases: func(tier string) []Case {
 			var cases []Case
